@@ -19,6 +19,18 @@ package main
 //                           real BoolReader + decodeMB (hook ReconTokenFrame) vs the model's emitPartitionBytes (token
 //                           partition BYTES, verbatim) and its decision-tree parser T.parseTokens run on the BoolReader model
 //                           (coefficients, NonZeroY/UV per macroblock, eof flag)
+//   hdremit  <header state> C06 first-partition header (Webp.Impl.VP8HeaderBytes): random header states (segment header with
+//                           absolute/delta values over the whole int8 range, segment-map probabilities, filter header with
+//                           deltas, 1/2/4/8 (and 3) partitions, quantiser fields, ARBITRARY coefficient probability tables -
+//                           default, sparse updates, fully random -, skip probability) through the real emitPartition0 over
+//                           zero macroblocks (hook EmitHeader) vs headerOps + the BoolWriter model: BYTES verbatim
+//   hdrparse <part0 hex>    the real parseHeaders (hook ParseHeaders: segment / filter header, partition count, ParseQuant's
+//                           matrices for the four segments, parseProba's table, skip probability, eof) vs the decision tree
+//                           T.parseHeader on the BoolReader model, on (i) the synthetic headers above, (ii) real webp.Encode
+//                           output over an option grid (Segments 1..4 x SNS x filter strength/sharpness/type x quality x
+//                           method 0..6 x partitions 0..3), (iii) frames of the independent plan writer gen_vp8.go
+//                           (absolute/delta segment values, filter deltas, arbitrary probability updates);
+//                           on (i) also as a property of the real code: parseHeaders returns the state emitPartition0 wrote
 // Round trip on the real code alone (property findings, C06): every written sequence is read back with the
 // matching reader calls (GetBit or GetBitAlt for PutBit, GetBit(128)/GetSigned for PutBitUniform, GetValue for
 // PutBits, GetBit(128)+GetSignedValue for PutSignedBits) and must return the symbols, with eof still false.
@@ -30,10 +42,13 @@ package main
 // all-0xff, all-0x00 and truncated data of 0..40 bytes.
 
 import (
+	"bytes"
 	"encoding/binary"
 	"fmt"
 	"strconv"
 	"strings"
+
+	webp "github.com/deepteams/webp"
 
 	"github.com/deepteams/webp/verifapi"
 )
@@ -736,6 +751,25 @@ func suiteBoolCoder(rep *Report) error {
 		add("VP8SyntaxBytes", "syntax-bytes", line, goL, nontr)
 	}
 
+	// ---- the first-partition header ----
+	nh, ne, np := 300, 120, 120
+	if rep.Tier == "thorough" {
+		nh, ne, np = 4000, 1500, 1500
+	}
+	for i := 0; i < nh; i++ {
+		bcHeaderSynth(rep, NewRNG(rep.Seed, 94_000_000+uint64(i)), add, propFinding)
+	}
+	for i := 0; i < ne; i++ {
+		bcHeaderEncode(rep, NewRNG(rep.Seed, 95_000_000+uint64(i)), i, add)
+	}
+	for i := 0; i < np; i++ {
+		payload, _ := SynVP8(NewRNG(rep.Seed, 96_000_000+uint64(i)), rep.Tier)
+		if l, g, ok := bcHeaderParseLines(payload); ok {
+			add("VP8HeaderBytes", "hdr-parse:planwriter", l, g, true)
+			rep.Count("hdr-parse:planwriter")
+		}
+	}
+
 	in := make([]string, len(lines))
 	for i, l := range lines {
 		in[i] = l.line
@@ -755,8 +789,22 @@ func suiteBoolCoder(rep *Report) error {
 	if unwired {
 		rep.Notes = append(rep.Notes, "driver has no handler for op rmfrb (Driver.VP8SyntaxBytes not wired into Driver/Main.lean): syntax-bytes leg skipped")
 	}
+	// the same for Driver.VP8HeaderBytes (ops hdremit, hdrparse)
+	unwiredH := true
+	for i, l := range lines {
+		if l.site == "VP8HeaderBytes" && lean[i] != "bad-op" {
+			unwiredH = false
+			break
+		}
+	}
+	if unwiredH {
+		rep.Notes = append(rep.Notes, "driver has no handler for ops hdremit/hdrparse (Driver.VP8HeaderBytes not wired into Driver/Main.lean): header leg skipped")
+	}
 	for i, l := range lines {
 		if unwired && l.site == "VP8SyntaxBytes" {
+			continue
+		}
+		if unwiredH && l.site == "VP8HeaderBytes" {
 			continue
 		}
 		rep.Eval(l.nontr, []byte(l.line))
@@ -882,6 +930,221 @@ func bcSyntaxGoLine(line string, rep *Report) string {
 	return out
 }
 
+// ---------- C06 header ----------
+
+func bcInts8(xs [4]int8) string {
+	o := make([]int, 4)
+	for i, v := range xs {
+		o[i] = int(v)
+	}
+	return rmInts(o)
+}
+
+func bcStateLine(st verifapi.HeaderState) string {
+	if st.Err != "" {
+		return "err parse"
+	}
+	mats := make([]string, 4)
+	for i := range mats {
+		mats[i] = rmInts(st.Dqm[i][:])
+	}
+	return fmt.Sprintf("ok cs=%d ct=%d seg=%s,%s,%s,%s,%s,%d,%d,%d filt=%s,%d,%d,%s,%s,%s np=%d dqm=%s coef=%s skip=%s,%d eof=%s",
+		st.Colorspace, st.ClampType, b2s(st.Seg.UseSegment), b2s(st.Seg.UpdateMap), b2s(st.Seg.AbsoluteDelta),
+		bcInts8(st.Seg.Quantizer), bcInts8(st.Seg.FilterStrength), st.SegProbs[0], st.SegProbs[1], st.SegProbs[2],
+		b2s(st.Filter.Simple), st.Filter.Level, st.Filter.Sharpness, b2s(st.Filter.UseLFDelta),
+		rmInts(st.Filter.RefLFDelta[:]), rmInts(st.Filter.ModeLFDelta[:]), st.NumPartsMinusOne,
+		strings.Join(mats, ";"), digest(st.Coef[:]), b2s(st.UseSkipProba), st.SkipP, b2s(st.EOF))
+}
+
+// bcHeaderParseLines: the hdrparse line of a VP8 payload and the real decoder's answer.
+func bcHeaderParseLines(payload []byte) (line, goL string, ok bool) {
+	if len(payload) < 10 {
+		return "", "", false
+	}
+	tag := int(payload[0]) | int(payload[1])<<8 | int(payload[2])<<16
+	plen := tag >> 5
+	if 10+plen > len(payload) {
+		return "", "", false
+	}
+	goL, _ = guard(func() string { return bcStateLine(verifapi.ParseHeaders(payload)) })
+	if goL == "err parse" {
+		// the container-level checks of parseHeaders (partition sizes ...) are not part of the header model
+		return "", "", false
+	}
+	return "hdrparse " + hx(payload[10:10+plen]), goL, true
+}
+
+var bcDefaultCoef []byte
+
+func bcHeaderSynth(rep *Report, r *RNG, add func(site, kind, line, goL string, nontr bool), prop func(prop, sig, detail, line string)) {
+	var in verifapi.HeaderIn
+	wide := r.Intn(4) == 0 // values beyond the field widths (truncated by PutBits on both sides)
+	i8 := func(lim int) int8 {
+		if wide {
+			return int8(r.Intn(256) - 128)
+		}
+		if r.Intn(3) == 0 {
+			return 0
+		}
+		return int8(r.Intn(2*lim+1) - lim)
+	}
+	in.Seg.UseSegment = r.Intn(3) > 0
+	in.Seg.UpdateMap = r.Bool()
+	in.Seg.AbsoluteDelta = r.Bool()
+	for i := 0; i < 4; i++ {
+		in.Seg.Quantizer[i] = i8(127)
+		in.Seg.FilterStrength[i] = i8(63)
+	}
+	for i := range in.SegProbs {
+		in.SegProbs[i] = []uint8{255, 255, 0, 1, 128, uint8(r.Intn(256))}[r.Intn(6)]
+	}
+	in.Filter.Simple = r.Bool()
+	in.Filter.Level = r.Intn(64)
+	in.Filter.Sharpness = r.Intn(8)
+	if wide {
+		in.Filter.Level = r.Intn(200)
+		in.Filter.Sharpness = r.Intn(20)
+	}
+	in.Filter.UseLFDelta = r.Bool()
+	allZero := r.Intn(4) == 0
+	for i := 0; i < 4; i++ {
+		if !allZero {
+			in.Filter.RefLFDelta[i] = int(i8(63))
+			in.Filter.ModeLFDelta[i] = int(i8(63))
+		}
+	}
+	in.NumParts = []int{1, 2, 4, 8, 1, 3}[r.Intn(6)]
+	in.BaseQ = r.Intn(128)
+	if wide {
+		in.BaseQ = r.Intn(300)
+	}
+	for i := range in.DQ {
+		if r.Intn(2) == 0 {
+			in.DQ[i] = r.Intn(31) - 15
+		}
+		if wide && r.Intn(3) == 0 {
+			in.DQ[i] = r.Intn(81) - 40
+		}
+	}
+	if bcDefaultCoef == nil {
+		d := verifapi.DefaultCoefProbas()
+		bcDefaultCoef = d[:]
+	}
+	copy(in.Coef[:], bcDefaultCoef)
+	tabKind := r.Intn(4)
+	switch tabKind {
+	case 1: // sparse updates
+		for k := 0; k < 1+r.Intn(40); k++ {
+			in.Coef[r.Intn(len(in.Coef))] = uint8(r.Intn(256))
+		}
+	case 2: // fully random
+		copy(in.Coef[:], r.Bytes(len(in.Coef)))
+	case 3: // extremes
+		for k := range in.Coef {
+			if r.Intn(3) == 0 {
+				in.Coef[k] = []uint8{0, 1, 254, 255}[r.Intn(4)]
+			}
+		}
+	}
+	if r.Bool() {
+		in.NumSkip = 1 + r.Intn(5)
+	}
+	in.SkipProba = []uint8{0, 1, 128, 255, uint8(r.Intn(256))}[r.Intn(5)]
+	rep.Count(fmt.Sprintf("hdr:table-kind%d", tabKind))
+	rep.Count("hdr:useSegment=" + b2s(in.Seg.UseSegment))
+	if wide {
+		rep.Count("hdr:fields-beyond-width")
+	}
+
+	line := fmt.Sprintf("hdremit %s,%s,%s %s %s %d,%d,%d %s,%d,%d,%s %s %s %d %d %s %s %s,%d",
+		b2s(in.Seg.UseSegment), b2s(in.Seg.UpdateMap), b2s(in.Seg.AbsoluteDelta), bcInts8(in.Seg.Quantizer), bcInts8(in.Seg.FilterStrength),
+		in.SegProbs[0], in.SegProbs[1], in.SegProbs[2],
+		b2s(in.Filter.Simple), in.Filter.Level, in.Filter.Sharpness, b2s(in.Filter.UseLFDelta),
+		rmInts(in.Filter.RefLFDelta[:]), rmInts(in.Filter.ModeLFDelta[:]), in.NumParts, in.BaseQ, rmInts(in.DQ[:]),
+		hx(in.Coef[:]), b2s(in.NumSkip > 0), in.SkipProba)
+	var part0 []byte
+	goL, _ := guard(func() string {
+		part0 = verifapi.EmitHeader(&in)
+		return "ok " + bcOut(part0)
+	})
+	add("VP8HeaderBytes", "hdr-emit", line, goL, true)
+	if goL == "panic" {
+		return
+	}
+	k := 1
+	switch in.NumParts {
+	case 2, 4, 8:
+		k = in.NumParts
+	}
+	payload := verifapi.AssembleFrame(16, 16, part0, make([][]byte, k))
+	pl, pg, ok := bcHeaderParseLines(payload)
+	if !ok {
+		prop("C06", "boolcoder:header:parse-rejects", "parseHeaders rejects the header emitPartition0 wrote", line)
+		return
+	}
+	add("VP8HeaderBytes", "hdr-parse:synthetic", pl, pg, true)
+	rep.Count("hdr-parse:synthetic")
+	// the real decoder returns what the real encoder wrote (fields within their widths only)
+	if !wide {
+		st := verifapi.ParseHeaders(payload)
+		bad := ""
+		if !bytes.Equal(st.Coef[:], in.Coef[:]) {
+			bad = "coefficient probabilities"
+		}
+		if st.UseSkipProba != (in.NumSkip > 0) || (st.UseSkipProba && st.SkipP != in.SkipProba) {
+			bad = "skip probability"
+		}
+		if st.Filter.Level != in.Filter.Level || st.Filter.Sharpness != in.Filter.Sharpness || st.Filter.Simple != in.Filter.Simple || st.Filter.UseLFDelta != in.Filter.UseLFDelta {
+			bad = "filter header"
+		}
+		if in.Filter.UseLFDelta && (st.Filter.RefLFDelta != in.Filter.RefLFDelta || st.Filter.ModeLFDelta != in.Filter.ModeLFDelta) {
+			bad = "filter deltas"
+		}
+		if st.Seg.UseSegment != in.Seg.UseSegment || (in.Seg.UseSegment && (st.Seg.Quantizer != in.Seg.Quantizer || st.Seg.FilterStrength != in.Seg.FilterStrength ||
+			st.Seg.AbsoluteDelta != in.Seg.AbsoluteDelta || st.Seg.UpdateMap != in.Seg.UpdateMap)) {
+			bad = "segment header"
+		}
+		if in.Seg.UseSegment && in.Seg.UpdateMap && st.SegProbs != in.SegProbs {
+			bad = "segment probabilities"
+		}
+		if int(st.NumPartsMinusOne)+1 != k || st.EOF {
+			bad = "partition count / eof"
+		}
+		if bad != "" {
+			prop("C06", "boolcoder:header:roundtrip", "parseHeaders does not return what emitPartition0 wrote: "+bad, line)
+		}
+	}
+}
+
+// bcHeaderEncode: a real encode over the option grid; its partition 0 through hdrparse.
+func bcHeaderEncode(rep *Report, r *RNG, i int, add func(site, kind, line, goL string, nontr bool)) {
+	w, h := 16+r.Intn(40), 16+r.Intn(40)
+	img := GenImage(r, w, h, []int{ClsPhoto, ClsNoise, ClsGradient, ClsFlat}[r.Intn(4)], 0)
+	o := webp.DefaultOptions()
+	o.Lossless = false
+	o.Quality = float32([]int{0, 20, 50, 75, 90, 100}[r.Intn(6)])
+	o.Method = i % 7
+	o.Segments = 1 + r.Intn(4)
+	o.SNSStrength = []int{0, 50, 100}[r.Intn(3)]
+	o.FilterStrength = []int{0, 20, 60, 100}[r.Intn(4)]
+	o.FilterSharpness = r.Intn(8)
+	o.FilterType = r.Intn(2)
+	o.Partitions = r.Intn(4)
+	var buf bytes.Buffer
+	if err := webp.Encode(&buf, img, o); err != nil {
+		rep.Count("hdr-parse:encode-error")
+		return
+	}
+	payload := vp8Payload(buf.Bytes())
+	if l, g, ok := bcHeaderParseLines(payload); ok {
+		add("VP8HeaderBytes", "hdr-parse:encoder", l, g, true)
+		rep.Count("hdr-parse:encoder")
+		rep.Count(fmt.Sprintf("hdr-enc:method%d", o.Method))
+		rep.Count(fmt.Sprintf("hdr-enc:segments%d", o.Segments))
+		rep.Count(fmt.Sprintf("hdr-enc:partitions%d", o.Partitions))
+	}
+}
+
 // ---------- replay ----------
 
 func replayBoolLine(in map[string]any) int {
@@ -904,6 +1167,15 @@ func replayBoolLine(in map[string]any) int {
 			return 2
 		}
 		goL, _, _ = bcRunReader(unhx(f[1]), ops)
+	case f[0] == "hdrparse" && len(f) == 2:
+		// the Go side needs the whole payload: rebuild one around the partition (one empty token partition per count)
+		p0 := unhx(f[1])
+		for _, k := range []int{1, 2, 4, 8} {
+			if _, g, ok := bcHeaderParseLines(verifapi.AssembleFrame(16, 16, p0, make([][]byte, k))); ok {
+				goL = g
+				break
+			}
+		}
 	case f[0] == "rmfrb" && len(f) == 6:
 		goL = bcSyntaxGoLine(line, nil)
 	case f[0] == "boolspec" && len(f) == 3:
